@@ -106,7 +106,16 @@ func c11GenRun(r *Rng) string {
 			inputs = strings.Join(ins, ",")
 		}
 	}
-	return fmt.Sprintf("run %s %s %s %d %s %d %s %s %s", method, kind, hdr, ilogs, iout, decl, prog, route, inputs)
+	// serialized state size: mostly tiny, sometimes ballast around the token codec's internal bounds
+	pad := ""
+	if r.Chance(14) {
+		n := Pick(r, []int{1, 1 << 10, 63 << 10, 64<<10 - 1, 64 << 10, 64<<10 + 1, 65 << 10, 96 << 10, 200 << 10})
+		if r.Chance(6) {
+			n = 1 << 20
+		}
+		pad = " " + Pick(r, []string{"z", "z", "r"}) + fmt.Sprint(n)
+	}
+	return fmt.Sprintf("run %s %s %s %d %s %d %s %s %s%s", method, kind, hdr, ilogs, iout, decl, prog, route, inputs, pad)
 }
 
 // c11GenExhaustive (thorough): every method x declared x input kind x a few cycle shapes, for every
